@@ -223,6 +223,8 @@ C17_LIMITS = {
     'subframes-x-channels': ('limit 7 255\nlimit 12 %d\nlimit 8 1\n', 257, [256, 257, 258, 300]),
     'frames': ('declp 1 0\nprate 8\nlimit 8 %d\n', 32767, [32766, 32767, 32768, 40000]),
     'parameter-blocks': ('limit 9 %d\n', 258, [250] + list(range(254, 270)) + [300]),
+    # the same sweep on an object that holds frames: the data section then starts right behind the parameter section (block 257 at 255 blocks)
+    'parameter-blocks-with-frames': ('declp 1 0\ndeclp 2 0\ndecla 1 0\nprate 8\narate 1\nlimit 9 %d\nlimit 8 3\n', 258, [250] + list(range(254, 270)) + [300]),
 }
 
 def c17_cases(tier):
@@ -246,7 +248,7 @@ def c17_cases(tier):
     # group id 127 (a loaded file with a sparse id) is the limit: adding one more group afterwards goes beyond it
     emit('group-id-127', 'flayout 0 2 0 0 0 0\nfshape 1 0 1 1 1 7 0 0 3\nfids 0 1 3\nfgroup 126 1 3 0\nload\n')
     emit('group-id-127-plus-one', 'flayout 0 2 0 0 0 0\nfshape 1 0 1 1 1 7 0 0 3\nfids 0 1 3\nfgroup 126 1 3 0\nload\nlimit 2 5\n')
-    heavy = {'frames', 'parameter-blocks', 'subframes-x-channels'}
+    heavy = {'frames', 'parameter-blocks', 'parameter-blocks-with-frames', 'subframes-x-channels'}
     pairs = list(itertools.combinations(names, 2))
     if tier == 'quick':
         import random
@@ -255,11 +257,11 @@ def c17_cases(tier):
         rnd.shuffle(pairs)
         pairs = pairs[:20]
     for a, b in pairs:
-        if {a, b} & {'points', 'channels', 'subframes-x-channels', 'frames'} == {a, b}:
+        if {a, b} & {'points', 'channels', 'subframes-x-channels', 'frames', 'parameter-blocks-with-frames'} == {a, b} or {a, b} == {'parameter-blocks', 'parameter-blocks-with-frames'}:
             continue          # two shape limits in one object need a common frame set; covered by the random part
         ta, La, va = C17_LIMITS[a]; tb, Lb, vb = C17_LIMITS[b]
         # shape-defining limits go last so that frames carry the final shape
-        first, second = (a, b) if b in ('points', 'channels', 'subframes-x-channels', 'frames') else (b, a)
+        first, second = (a, b) if b in ('points', 'channels', 'subframes-x-channels', 'frames', 'parameter-blocks-with-frames') else (b, a)
         for x in C17_LIMITS[first][2][1:3] if tier == 'quick' else C17_LIMITS[first][2]:
             for y in C17_LIMITS[second][2][1:3] if tier == 'quick' else C17_LIMITS[second][2]:
                 emit('%s=%d+%s=%d' % (first, x, second, y), C17_LIMITS[first][0] % x + C17_LIMITS[second][0] % y)
